@@ -1,4 +1,5 @@
 import PyemvGen.Mod.Common
+import PyemvProps.C04
 import PyemvGen.Mod.tools_ecb
 import PyemvGen.Mod.tools_adjust
 namespace Pyemv.ModRefines
@@ -9,5 +10,10 @@ theorem kd_derive_common_sk (mk r : Bytes) : Gen.kd.derive_common_sk mk r = deri
   simp only [tools_ecb, tools_adjust, bind, Except.bind, pure, Except.pure]
   repeat (first | rfl | split)
   all_goals simp_all
+
+/-- **C04 (common session key) about the translated source** -/
+theorem source_derive_common_sk (mk r : Bytes) (hmk : mk.length = 16) (hr : r.length = 8) :
+    Gen.kd.derive_common_sk mk r = .ok (adjustKeyParity (Spec.tdesE mk (r.set 2 0xF0) ++ Spec.tdesE mk (r.set 2 0x0F))) := by
+  rw [kd_derive_common_sk]; exact C04.common_sk_eq_spec mk r hmk hr
 
 end Pyemv.ModRefines
